@@ -477,6 +477,13 @@ class KroneckerProductDiagLinearOperator(DiagLinearOperator, KroneckerProductTri
     ) -> Float[LinearOperator, "*batch M N"]:
         return DiagLinearOperator(self._diag * other.unsqueeze(-1))
 
+    def _prod_batch(self, dim: int) -> LinearOperator:
+        # (the inherited method builds self.__class__ from a diagonal tensor; this class is built from operators)
+        return DiagLinearOperator(self._diag.prod(dim))
+
+    def _sum_batch(self, dim: int) -> LinearOperator:
+        return DiagLinearOperator(self._diag.sum(dim))
+
     def _size(self) -> torch.Size:
         # Though the super._size method works, this is more efficient
         diag_shapes = [linear_op._diag.shape for linear_op in self.linear_ops]
